@@ -33,6 +33,10 @@ SRC = os.environ.get('VERIF_TREE', '/repo') + '/tests/eponine/tripoli4/data/gaus
 BOUNDS = {'quick': {'responses per listing': 2, 'energy groups': '1-3', 'second dimension': 'none, time steps (1-3) or mu zones (1-3)',
                     'printing order': 'increasing or decreasing, independently per dimension', 'scores': 'distinct positive tags, one solver-chosen cell zero or negative',
                     'energy-integrated results': 'after every spectrum (per time step); one solver-chosen relative sigma printed as exactly zero',
+                    'KEFFS response': 'three estimators, three pair lines each fully converged / combined sigma not converged, '
+                                      'full combination converged or not, a negative correlation',
+                    'sensitivity profiles': '0-3 incident energy x 1-2 energy x 0-3 direction cosine intervals (layout of sensitivity_godiva.d.res), every '
+                                            'dimension printed increasing or decreasing',
                     'mesh scores': '1-2 cells x 1-2 energy ranges x 1-3 time steps (layout of box_dyn.res.ceav5), each dimension printed increasing or '
                                    'decreasing, with the energy-integrated and space-and-energy-integrated results of every time step'},
           'thorough': {'responses per listing': '1 (1-4 energy groups) or 2 (1 energy group)', 'energy groups': '1-4', 'second dimension': 'none, time (1-3), mu (1-3), time x mu (2x2)',
@@ -42,7 +46,7 @@ ASSUMPTIONS = ['listings are synthesised from the layout of the shipped example 
                'the layout (group counts, printing orders, position of the special value) is solver-chosen; the printed numbers are concrete tags',
                'relative sigma is printed in percent; error = score * sigma / 100 (literal reading of the statement, also for negative scores)']
 OUTSIDE = ['meshes larger than 2 cells / 2 energy ranges / 3 time steps, mesh entropy arrays', 'Apollo3: only the documented standard layout with <= 2 outputs, <= 2 zones, <= 3 isotopes, FLUX/KEFF/CONCEN/Absorption (h5py is a C library: layouts are enumerated, nothing is symbolic)',
-           'Green bands, keff, IFP, perturbation, sensitivity layouts', 'several editions with different results', "'not converged' results"]
+           'Green bands, IFP, perturbation, keff-per-generation layouts; KEFFS pair lines with all three fields "Not converged" (grammar accepts them, the converter raises AttributeError; no shipped listing shows such a line); sensitivity profiles beyond 3 x 2 x 3 intervals', 'several editions with different results', "'not converged' results"]
 EXPLANATION = ('bounded-exhaustive symbolic execution (symrun + z3: solver-chosen listing layouts) of the real Tripoli-4 reader on synthetic '
                'listings built around known ground truth; every parsed number compared with the number written')
 
@@ -332,6 +336,172 @@ def _job_mesh(timeout_ms, seed=0):
                    require_checks=['mesh:every-energy-integrated-result-sits-in-its-cell-and-time-step'])
 
 
+# ----------------------------------------------------------------------------- sensitivity profiles
+def sensitivity_listing(grids, vals, sigs, integ, reverse):
+    """one-edition listing with one sensitivity profile (layout of sensitivity_godiva.d.res) split in incident energy,
+    outgoing energy and direction cosine; grids[dim] = increasing edges or None; reverse[dim]: printed from high to low"""
+    stars = '*' * 78 + '\n'
+    out = [' i = 1; NUCLEUS : U238, TYPE : SCATTERING LAW 21 (CONSTRAINED)\n', '\n']
+    order = {}
+    for dim, axis in (('einc', 0), ('e', 1), ('mu', 2)):
+        order[dim] = list(range(vals.shape[axis]))
+        if reverse[dim]:
+            order[dim].reverse()
+    for imu in order['mu']:
+        if grids['mu'] is not None:
+            out.append(f"\n Direction cosine interval: {_fmt(grids['mu'][imu])} {_fmt(grids['mu'][imu + 1])}\n\n")
+        for iei in order['einc']:
+            if grids['einc'] is not None:
+                out.append(f"\n Incident energy interval in MeV: {_fmt(grids['einc'][iei])} {_fmt(grids['einc'][iei + 1])}\n\n")
+            out.append(' E min          E max              S(E)         sigma\n\n')
+            for ien in order['e']:
+                out.append(f" {_fmt(grids['e'][ien])}  {_fmt(grids['e'][ien + 1])}    {_fmt(vals[iei, ien, imu])}  {_fmt(sigs[iei, ien, imu])}\n")
+            out.append('\n')
+    out.append(f' Energy integrated S           {_fmt(integ[0])}  {_fmt(integ[1])}\n\n')
+    block = ''.join(out)
+    return ''.join([' BATCH 10\n', ' SIZE 1000\n', '\n', ' initialization time (s): 1\n', '\n', ' batch number : 10\n', '\n',
+                    '*' * 57 + '\n', '\n', ' RESULTS ARE GIVEN FOR SOURCE INTENSITY : 1.000000e+00\n', '*' * 57 + '\n', '\n', '\n',
+                    ' Mean weight leakage = 1.146834e+04\t sigma = 1.449156e+01\t sigma% = 1.263615e-01\n', '\n', '\n',
+                    ' Edition after batch number : 10\n', '\n', stars,
+                    'RESPONSE FUNCTION : IFP ADJOINT WEIGHTED KEFF SENSITIVITIES\n', stars, '\n', 'number of batches used:\t8\n', '\n',
+                    'Scores are ordered by type (SECTION, FISSION NU, FISSION CHI, SCATTERING KERNEL) and index:\n', '\n',
+                    'SCATTERING TRANSFER FUNCTION SENSITIVITY :\n', '\n', block, '\n', '\n', ' simulation time (s) : 5\n', '\n', '\n',
+                    '=' * 69 + '\n', '\tNORMAL COMPLETION\n', '=' * 69 + '\n'])
+
+
+def sensitivity_harness(ex):
+    from valjean.eponine.tripoli4.parse import Parser
+    neinc = ex.choice(4, 'incident-energy-intervals')         # 0: not split
+    nmu = ex.choice(4, 'direction-cosine-intervals')          # 0: not split
+    ne = 1 + ex.choice(2, 'energy-groups')
+    reverse = {'einc': bool(neinc > 1 and ex.flag('einc-printed-high-to-low')), 'e': bool(ne > 1 and ex.flag('e-printed-high-to-low')),
+               'mu': bool(nmu > 1 and ex.flag('mu-printed-high-to-low'))}
+    grids = {'einc': np.array([1.1e-11, 1.0e-03, 1.0, 19.64])[:neinc + 1] if neinc else None,
+             'e': np.array([1.00001e-11, 1.234098e-03, 19.64033])[:ne + 1],
+             'mu': np.linspace(-1., 1., nmu + 1) if nmu else None}
+    shape = (max(neinc, 1), ne, max(nmu, 1))
+    n = int(np.prod(shape))
+    vals = (np.arange(1, n + 1, dtype=float) * 1e-3 * np.where(np.arange(n) % 3 == 0, -1.0, 1.0)).reshape(shape)
+    sigs = (1.0 + np.arange(n) % 7).astype(float).reshape(shape)
+    integ = (-3.661409e-03, 9.339996e+00)
+    tmp = tempfile.mkdtemp(prefix='verif_c10s_')
+    path = os.path.join(tmp, 'sens.res')
+    try:
+        with open(path, 'w') as fh:
+            fh.write(sensitivity_listing(grids, vals, sigs, integ, reverse))
+        try:
+            resp = Parser(path).parse_from_index(-1).to_browser().select_by(response_type='sensitivity', sensitivity_nucleus='U238')
+        except Exception as e:      # noqa
+            ex.check(False, 'sensitivity:synthetic-listing-is-parsed', detail=f'{type(e).__name__}: {e}')
+            return
+        ds = resp['results']['score']
+        ok = tuple(ds.shape) == shape
+        ex.check(ok, 'sensitivity:shape-is-einc-x-e-x-mu', detail=f'{ds.shape} expected {shape}')
+        if ok:
+            ex.check(bool(np.allclose(ds.value, vals, rtol=1e-6, atol=0.) and np.allclose(ds.error, vals * sigs * 0.01, rtol=1e-5, atol=0.)),
+                     'sensitivity:every-value-sits-in-the-intervals-it-was-printed-under-and-error-is-value-times-sigma')
+        good, detail = True, ''
+        for dim, edges in grids.items():
+            got = np.asarray(ds.bins[dim], dtype=float)
+            if edges is None:
+                good = good and got.size == 0
+            elif got.shape != edges.shape or not np.allclose(got, edges, rtol=1e-6, atol=0.):
+                good, detail = False, f'{dim}: {got.tolist()} printed boundaries {edges.tolist()}'
+        ex.check(good, 'sensitivity:bins-are-the-printed-boundaries-in-increasing-order', detail=detail)
+        ids = resp['results']['integrated']
+        ex.check(bool(np.isclose(np.asarray(ids.value).squeeze(), integ[0], rtol=1e-6) and
+                      np.isclose(np.asarray(ids.error).squeeze(), abs(integ[0]) * integ[1] / 100, rtol=1e-5) or
+                      np.isclose(np.asarray(ids.error).squeeze(), integ[0] * integ[1] / 100, rtol=1e-5)),
+                 'sensitivity:integrated-value-as-printed')
+    finally:
+        shutil.rmtree(tmp, ignore_errors=True)
+
+
+def _job_sens(timeout_ms, seed=0):
+    return run_sym('x', sensitivity_harness, timeout_ms=timeout_ms, seed=seed, max_paths=1000000,
+                   require_checks=['sensitivity:bins-are-the-printed-boundaries-in-increasing-order'])
+
+
+# ----------------------------------------------------------------------------- KEFFS response
+KEFF_EST = ('KSTEP', 'KCOLL', 'KTRACK')
+
+
+def keff_listing(estims, combs, full):
+    """one-edition listing with a KEFFS response laid out as in entropy.d.res.ceav5; None = printed as 'Not converged'"""
+    stars = '*' * 78 + '\n'
+
+    def f(v):
+        return ' Not converged' if v is None else _fmt(v)
+    out = [stars, 'RESPONSE FUNCTION : KEFFS\n', stars, '\n', '\tENERGY INTEGRATED RESULTS\n', '\n', 'number of batches used:\t5\n', '\n']
+    for est in KEFF_EST:
+        out.append(f' {est:<6} {_fmt(estims[est][0])}\t{_fmt(estims[est][1])}\n')
+    out.append('\n  \t  estimators  \t\t\t  correlations   \t  combined values  \t  combined sigma%\n')
+    for (e1, e2), (corr, comb, sig) in combs.items():
+        out.append(f'  \t  {e1} <-> {e2}  \t    \t  {f(corr)}  \t  {f(comb)}  \t  {f(sig)}\n')
+    out.append('\n')
+    out.append('  \t  full combined estimator not converged\n' if full is None else
+               f'  \t  full combined estimator  {_fmt(full[0])}\t{_fmt(full[1])}\n')
+    out.append('\n\n')
+    block = ''.join(out)
+    return ''.join([' data reading time (s): 0\n', ' BATCH 6\n', ' SIZE 100\n', '\n', ' initialization time (s): 2\n', '\n',
+                    ' batch number : 6\n', '\n', '*' * 57 + '\n', '\n', ' RESULTS ARE GIVEN FOR SOURCE INTENSITY : 1.000000e+00\n',
+                    '*' * 57 + '\n', '\n', '\n', ' Mean weight leakage = 1.182159e+00\t sigma = 3.814722e-01\t sigma% = 3.226910e+01\n',
+                    '\n', '\n', ' Edition after batch number : 6\n', '\n', block, ' simulation time (s) : 15\n', '\n', '\n',
+                    ' Type and parameters of random generator at the end of simulation: \n',
+                    '\t DRAND48_RANDOM 20427 28694 30088  COUNTER\t96405776\n', '\n', '=' * 69 + '\n', '\tNORMAL COMPLETION\n', '=' * 69 + '\n'])
+
+
+def keff_harness(ex):
+    from valjean.eponine.tripoli4.parse import Parser
+    estims = {e: (0.9 + 0.01 * i, 1.5 + i) for i, e in enumerate(KEFF_EST)}
+    pairs = [('KSTEP', 'KCOLL'), ('KSTEP', 'KTRACK'), ('KCOLL', 'KTRACK')]
+    combs = {}
+    for i, pr in enumerate(pairs):
+        # what is converged on this line: everything / everything but the combined sigma (the two layouts the shipped listings
+        # show; a line with three "Not converged" is accepted by the grammar but not known to be printed by Tripoli-4: outside)
+        state = ex.choice(2, f'pair{i}-convergence')
+        corr = (-0.3 if (i == 1 and ex.flag('negative-correlation')) else 0.99 - 0.01 * i)
+        combs[pr] = [(corr, 0.95 + 0.001 * i, 1.1 + i), (corr, 0.95 + 0.001 * i, None), (None, None, None)][state]
+    full = (0.9744133, 0.08990046) if ex.flag('full-combination-converged') else None
+    tmp = tempfile.mkdtemp(prefix='verif_c10k_')
+    path = os.path.join(tmp, 'keff.res')
+    try:
+        with open(path, 'w') as fh:
+            fh.write(keff_listing(estims, combs, full))
+        try:
+            br = Parser(path).parse_from_index(-1).to_browser()
+        except Exception as e:      # noqa
+            ex.check(False, 'keff:synthetic-listing-is-parsed', detail=f'{type(e).__name__}: {e}')
+            return
+
+        def same(got, want):
+            got = float(np.asarray(got).squeeze())
+            return bool(np.isnan(got)) if want is None else bool(np.isclose(got, want, rtol=1e-6, atol=0.))
+        bad = []
+        for est, (k, sg) in estims.items():
+            r = br.select_by(response_type='keff', keff_estimator=est)['results']
+            if not (same(r['keff'].value, k) and same(r['keff'].error, k * sg * 0.01)):
+                bad.append(est)
+        for (e1, e2), (corr, comb, sg) in combs.items():
+            r = br.select_by(response_type='keff', keff_estimator=f'{e1}-{e2}')['results']
+            if not (same(r['keff'].value, comb) and same(r['correlation_keff'].value, corr) and
+                    same(r['keff'].error, None if (sg is None or comb is None) else comb * sg * 0.01)):
+                bad.append(f'{e1}-{e2}: keff {np.asarray(r["keff"].value)} +- {np.asarray(r["keff"].error)} corr '
+                           f'{np.asarray(r["correlation_keff"].value)} printed {corr, comb, sg}')
+        r = br.select_by(response_type='keff', keff_estimator='full combination')['results']
+        if not (same(r['keff'].value, None if full is None else full[0]) and
+                same(r['keff'].error, None if full is None else full[0] * full[1] * 0.01)):
+            bad.append(f'full combination {np.asarray(r["keff"].value)} +- {np.asarray(r["keff"].error)} printed {full}')
+        ex.check(not bad, 'keff:every-printed-number-comes-back-and-only-not-converged-ones-are-NaN', detail='; '.join(bad)[:400])
+    finally:
+        shutil.rmtree(tmp, ignore_errors=True)
+
+
+def _job_keff(timeout_ms, seed=0):
+    return run_sym('x', keff_harness, timeout_ms=timeout_ms, seed=seed, max_paths=1000000,
+                   require_checks=['keff:every-printed-number-comes-back-and-only-not-converged-ones-are-NaN'])
+
+
 # ----------------------------------------------------------------------------- Apollo3 (HDF5) half
 ISOTOPES = ['U235', 'U238', 'Xe135']
 
@@ -450,10 +620,10 @@ def jobs(tier):
     if tier == 'quick':
         return [(f'{s}-r1', _job, dict(nresp=1, max_e=3, seconds=[s], timeout_ms=t)) for s in ('none', 'time', 'mu')] + \
                [('mixed-r2', _job, dict(nresp=2, max_e=1, seconds=['none', 'time'], timeout_ms=t)),
-                ('apollo3', _job_apollo, dict(timeout_ms=t)), ('mesh', _job_mesh, dict(timeout_ms=t))]
+                ('apollo3', _job_apollo, dict(timeout_ms=t)), ('mesh', _job_mesh, dict(timeout_ms=t)), ('sensitivity', _job_sens, dict(timeout_ms=t)), ('keff', _job_keff, dict(timeout_ms=t))]
     return [(f'{s}-r1', _job, dict(nresp=1, max_e=4, seconds=[s], timeout_ms=t)) for s in ('none', 'time', 'mu')] + \
            [('mixed-r2', _job, dict(nresp=2, max_e=1, seconds=['none', 'time', 'mu'], timeout_ms=t)),
-            ('apollo3', _job_apollo, dict(timeout_ms=t)), ('mesh', _job_mesh, dict(timeout_ms=t))]
+            ('apollo3', _job_apollo, dict(timeout_ms=t)), ('mesh', _job_mesh, dict(timeout_ms=t)), ('sensitivity', _job_sens, dict(timeout_ms=t)), ('keff', _job_keff, dict(timeout_ms=t))]
 
 
 def replay(rp):
@@ -461,6 +631,10 @@ def replay(rp):
         return replay_sym(apollo_harness, rp['inputs'])
     if rp['job'] == 'mesh':
         return replay_sym(mesh_harness, rp['inputs'])
+    if rp['job'] == 'sensitivity':
+        return replay_sym(sensitivity_harness, rp['inputs'])
+    if rp['job'] == 'keff':
+        return replay_sym(keff_harness, rp['inputs'])
     for j in jobs('thorough') + jobs('quick'):
         if j[0] == rp['job']:
             p = j[2]
